@@ -299,6 +299,8 @@ EQUIVALENTS = [
     ('eq_regular_gate_hoisted_zeros_kept', 'bempp_cl/core/numba_kernels.py', "        for trial_element_index in range(n_trial_elements):\n            trial_element = trial_elements[trial_element_index]\n            if grids_identical and elements_adjacent(test_grid_data.elements, test_element, trial_element):\n                is_adjacent[trial_element_index] = True\n", "        if grids_identical:\n            for trial_element_index in range(n_trial_elements):\n                trial_element = trial_elements[trial_element_index]\n                if elements_adjacent(test_grid_data.elements, test_element, trial_element):\n                    is_adjacent[trial_element_index] = True\n", 0, ['C01', 'C16', 'C07']),
     ('eq_duffy_gauss_order_via_exact_helper', 'bempp_cl/api/integration/duffy_galerkin.py', "    xreg, wreg = gauss_rule(order)\n", "    xreg, wreg = gauss_rule((2 * order - 1 + 1) // 2)\n", 0, ['C12', 'C01']),
     ('eq_p1_extension_append_guarded', 'bempp_cl/api/space/scalar_spaces.py', "                for en in non_support_neighbors:\n                    extended_support.append(en)\n", "                for en in non_support_neighbors:\n                    if en not in extended_support:\n                        extended_support.append(en)\n", 0, ['C09', 'C10']),
+    ('eq_singular_assemble_dof_counts_from_originals', 'bempp_cl/core/singular_assembler.py', "        row_dof_count = dual_to_range.global_dof_count\n        col_dof_count = domain.global_dof_count\n", "        row_dof_count = self.dual_to_range.global_dof_count\n        col_dof_count = self.domain.global_dof_count\n", 0, ['C17', 'C01', 'C13']),
+    ('eq_helmholtz_sl_zero_real_branch_consistent', 'bempp_cl/core/numba_kernels.py', "    for j in range(npoints):\n        output_real[j] = _np.cos(wavenumber_real * dist[j]) * m_inv_4pi / dist[j]\n        output_imag[j] = _np.sin(wavenumber_real * dist[j]) * m_inv_4pi / dist[j]\n", "    if wavenumber_real == 0:\n        for j in range(npoints):\n            output_real[j] = m_inv_4pi / dist[j]\n    else:\n        for j in range(npoints):\n            output_real[j] = _np.cos(wavenumber_real * dist[j]) * m_inv_4pi / dist[j]\n            output_imag[j] = _np.sin(wavenumber_real * dist[j]) * m_inv_4pi / dist[j]\n", 0, ['C05', 'C20']),
     ('eq_rwg_count_local', 'bempp_cl/api/space/maxwell_spaces.py', '                if len(supported_neighbors) == 2:\n                    if edge_dofs[edge_index]:', '                n_sup = len(supported_neighbors)\n                if n_sup == 2:\n                    if edge_dofs[edge_index]:', 0, ['C09']),
     ('eq_rwg_sentinel_full', 'bempp_cl/api/space/maxwell_spaces.py', '    edge_dofs = -_np.ones(number_of_edges, dtype=_np.int32)', '    edge_dofs = _np.full(number_of_edges, -1, dtype=_np.int32)', 0, ['C09', 'C16']),
     ('eq_p1_interior_inline', 'bempp_cl/api/space/scalar_spaces.py', '            node_is_interior = len(non_support_neighbors) == 0 and not grid_data.vertex_on_boundary[vertex]\n            if include_boundary_dofs or node_is_interior:', '            if include_boundary_dofs or (len(non_support_neighbors) == 0 and not grid_data.vertex_on_boundary[vertex]):', 0, ['C09']),
